@@ -14,6 +14,8 @@ use std::sync::Mutex;
 
 /// verdicts of the server fast path that fresh processes did not confirm (must stay 0)
 static DISCREPANCIES: AtomicU64 = AtomicU64::new(0);
+/// confirmed violations so far; exploration stops early once a handful is at hand
+static FOUND: AtomicU64 = AtomicU64::new(0);
 
 // -------------------------------------------------------------------------------------------------
 // cases and their evaluation (used by campaigns, minimisation and replay alike)
@@ -521,6 +523,7 @@ fn explore_workload(ctx: &Ctx, wd: &WorkDir, wd_oneshot: &WorkDir, prop: &str, i
             agg.not_judgeable += 1;
             return;
         }
+        FOUND.fetch_add(1, Ordering::SeqCst);
         agg.violations.push(Found { index, oracle: oracle.to_string(), case, violation: v });
     };
     match prop {
@@ -601,8 +604,14 @@ fn explore_workload(ctx: &Ctx, wd: &WorkDir, wd_oneshot: &WorkDir, prop: &str, i
             for k in 1..=envs_per_workload {
                 let env = gen_env(derive(ctx.seed, "C23.env", index, k));
                 // every third perturbation changes one knob only
-                let env = match k % 3 {
+                let env = match k % 4 {
                     1 => Env { entropy: env.entropy, ..Env::baseline() },
+                    2 => {
+                        // schedule only: a pre-empting scheduler for the collector threads
+                        let mut r = Rng::new(derive(ctx.seed, "C23.sched", index, k));
+                        let sched = if r.chance(50) { SchedSpec::Random(r.next()) } else { SchedSpec::Pct { seed: r.next(), depth: 1 + r.below(4) as u32, span: 200 } };
+                        Env { sched: sched.render(), ..Env::baseline() }
+                    }
                     _ => env,
                 };
                 let mode = if k % 2 == 1 { all.clone() } else { other.clone() };
@@ -760,11 +769,11 @@ pub fn run_check(prop: &str, tier: &str, workloads_override: Option<u64>, dump: 
     let ctx = Ctx { paths, known, seed, verif_dir: verif_dir.clone(), findings: load_findings(&verif_dir) };
     let (mut workloads, envs) = match (prop, tier) {
         ("C21", "thorough") => (40_000u64, 4u64),
-        ("C21", _) => (500, 3),
+        ("C21", _) => (1200, 3),
         ("C22", "thorough") => (20_000, 4),
-        ("C22", _) => (300, 2),
-        ("C23", "thorough") => (25_000, 6),
-        (_, _) => (300, 3),
+        ("C22", _) => (600, 2),
+        ("C23", "thorough") => (25_000, 8),
+        (_, _) => (1000, 4),
     };
     if let Some(n) = workloads_override {
         workloads = n;
@@ -804,7 +813,7 @@ pub fn run_check(prop: &str, tier: &str, workloads_override: Option<u64>, dump: 
                 let mut agg = Agg::default();
                 loop {
                     let i = next.fetch_add(1, Ordering::SeqCst);
-                    if i >= workloads {
+                    if i >= workloads || FOUND.load(Ordering::SeqCst) >= 12 {
                         break;
                     }
                     explore_workload(ctx, &wd, &wd_oneshot, prop, i, envs, &mut agg, dump);
@@ -864,6 +873,13 @@ pub fn run_check(prop: &str, tier: &str, workloads_override: Option<u64>, dump: 
                 return 2;
             }
             let mut budget = if tier == "thorough" { 1500usize } else { 500 };
+            if class == "no_termination" {
+                // every failing candidate costs a full tripwire
+                budget = 40;
+                wd.tripwire_ms.set(5_000);
+            } else {
+                wd.tripwire_ms.set(run::TRIPWIRE_MS);
+            }
             case = simplify_case(&ctx, &wd, &f.oracle, &case, lkm, &class, &mut budget);
             case = explicit_io(&ctx, &wd, &f.oracle, &case, lkm, &class, &mut budget);
             let mut fails = |cand: &Value| -> bool {
@@ -871,6 +887,7 @@ pub fn run_check(prop: &str, tier: &str, workloads_override: Option<u64>, dump: 
                 matches!(evaluate(&ctx, &wd, &f.oracle, &case, lkm), Err((v, _)) if v.class == class)
             };
             min_pcode = minimise::minimise_pcode(&pcode, &mut fails, budget);
+            wd.tripwire_ms.set(run::TRIPWIRE_MS);
             wd.write_workload(&serde_json::to_vec(&min_pcode).unwrap(), &elf);
             if !matches!(evaluate(&ctx, &wd, &f.oracle, &case, lkm), Err((v, _)) if v.class == class) {
                 eprintln!("HARNESS ERROR: minimised workload does not reproduce {class}");
